@@ -311,7 +311,7 @@ def report(ck, pool, fails, label):
         if (f["key"], f["what"]) in seen:
             continue
         seen.add((f["key"], f["what"]))
-        if reported < 3 and not str(f["key"]).startswith("corpus:"):
+        if reported < 3 and not f.get("tags") and not str(f["key"]).startswith("corpus:"):
             what = f["what"]
 
             def still(src):
